@@ -28,7 +28,8 @@ ASSUMPTIONS = [
     "way) x all insertion orders x all orientations; arbitrary labellings/names of 7-8 node trees are "
     "sampled by trees_labelled_random, not enumerated (1.7e11 histories for n = 8)",
     "graphs: a link may be inserted twice (beyond's own create_station does so), which must change nothing",
-    "registrations: the probe date carries a drawn time-scale label; half of the probe conversions hold the state "
+    "registrations: new frames are named <stem><sep><n> with sep among - space _ . / e-acute Omega : + (names that "
+    "differ only by a non-identifier character meet in one history); the probe date carries a drawn time-scale label; half of the probe conversions hold the state "
     "in spherical form and name the frames by their objects; conversion results are held across registrations "
     "(and cloned by copy()/copy/deepcopy/pickle) and must convert like fresh ones; alias frames share the "
     "orientation object of one frame and the centre of another; names and objects are compared for "
@@ -608,6 +609,10 @@ def reg_case(draw, shard, tier):
             ops.append(dict(op="alias", orient_of=d.int(0, 999), center_of=d.int(0, 999)))
         else:
             ops.append(dict(op="body", name=d.pick("Moon", "Sun")))
+    # names of the new frames: one stem per history, then a separator and a small number, so that names
+    # differing only by a non-identifier character ('K-1', 'K 1', 'K_1', 'K.1') meet in one history
+    for o in ops:
+        o["nm"] = [d.pick("-", " ", "_", ".", "/", "é", "Ω", "", ":", "+"), d.int(1, 2)]
     return dict(label=d.pick("UTC", "UTC", "TAI", "TT", "GPS", "UT1"), hold=d.pick("none", "copy()", "pickle", "deepcopy", "copy.copy"),
                 ops=ops, sv=[d.u(-1.0, 1.0) * 7e6 for _ in range(3)] + [d.u(-1.0, 1.0) * 6e3 for _ in range(3)],
                 day=d.int(53000, 58000), sec=d.int(0, 86399), picks=[d.int(0, 10**6) for _ in range(40)])
@@ -766,6 +771,9 @@ def check_registrations(case):
     nreg = 0
     worst = 0.0
     depth = {}
+    _proc["hist"] = _proc.get("hist", 0) + 1
+    stem = f"K{os.getpid() % 1000}h{_proc['hist']}"
+    used_names = set()
     user = dict(arr=None, uses=0)
     probes = {}
 
@@ -785,7 +793,14 @@ def check_registrations(case):
 
     for step, op in enumerate(case["ops"]):
         _proc["counter"] += 1
-        name = f"R{os.getpid() % 1000}x{_proc['counter']}"
+        if "nm" in op:
+            sep, num = op["nm"]
+            name = f"{stem}{sep}{num}"
+            while name in used_names:
+                name = f"{name}{sep}{len(used_names)}"
+            used_names.add(name)
+        else:
+            name = f"R{os.getpid() % 1000}x{_proc['counter']}"
         if op["op"] == "station":
             mode = op.get("coords", "tuple")
             if mode == "tuple":
@@ -933,6 +948,7 @@ def check_registrations(case):
         raise Violation("argument-modified", user["modified"])
     dmax = max(depth.values(), default=0)
     return dict(nt=nreg >= 1, cls=[f"regs:{min(nreg, 12) // 4 * 4}+", f"depth:{min(dmax, 3)}"]
+                + (["near-colliding-names"] if len({__import__("re").sub(r"\W", "_", x) for x in used_names}) < len(used_names) else [])
                 + (["shared-array"] if user["uses"] > 1 else []) + ["date:" + case.get("label", "UTC"), "hold:" + case.get("hold", "none")]
                 + sorted({op["op"] for op in case["ops"]}), ratio=worst)
 
